@@ -9,12 +9,15 @@ def tup(x):
     return tuple(tup(y) for y in x) if isinstance(x, list) else x
 
 
-def check(acc, spec, L, limits=LIMITS, stack=('x', 'y'), eps='_', big=False):
+def check(acc, spec, L, limits=LIMITS, stack=('x', 'y'), eps='_', big=False, morph=False):
     from gambatools.pda_algorithms import pda_accepts_word
     from gambatools.global_settings import GambaTools
     rp = {'fn': 'mc.props.c09:one', 'mode': 'plain', 'params': {'spec': spec, 'L': L, 'limits': list(limits), 'stack': list(stack), 'eps': eps, 'big': big}}
+    if morph:
+        rp = {'fn': 'mc.props.c09:one_morph', 'mode': 'plain', 'params': {'prev': acc.data.get('prev'), 'spec': spec, 'L': L, 'limits': list(limits), 'stack': list(stack), 'eps': eps}}
+        acc.data['prev'] = spec
     R = pda.ref(spec, stack)
-    ok, P = core.lib_call(acc, 'PDA()', {'pda': spec}, pda.build, spec, stack, 's', eps, repro=rp)
+    ok, P = core.lib_call(acc, 'PDA()', {'pda': spec}, pda.morph if morph else pda.build, spec, stack, 's', eps, repro=rp)
     if not ok:
         return
     acc.states += 1
@@ -31,6 +34,8 @@ def check(acc, spec, L, limits=LIMITS, stack=('x', 'y'), eps='_', big=False):
             for lim in limits:
                 GambaTools.pda_epsilon_closure_max_iterations = lim
                 inst = {'pda': pda.show(spec, stack), 'word': w, 'limit': lim, 'epsilon': eps}
+                if morph:
+                    inst['presented_as'] = 'one live object rewritten in place after earlier queries'
                 ok, got = core.lib_call(acc, 'pda_accepts_word', inst, pda_accepts_word, P, w, repro=rp)
                 acc.transitions += 1
                 if not ok:
@@ -64,20 +69,59 @@ def one(acc, spec, L, limits, stack, eps, big=False):
     check(acc, tup(spec), L, tuple(limits), tuple(stack), eps, big)
 
 
-def t_space(acc, n, k, g, t, L, shard, nshard, stride=1, offset=0, limits=LIMITS, stack=('x', 'y'), eps='_', tmin=0):
+def one_morph(acc, prev, spec, L, limits, stack, eps):
+    pda._LIVE.clear()
+    for s_ in (prev, spec):
+        if s_ is not None:
+            check(acc, tup(s_), L, tuple(limits), tuple(stack), eps, morph=True)
+    acc.data.clear()
+
+
+def t_space(acc, n, k, g, t, L, shard, nshard, stride=1, offset=0, limits=LIMITS, stack=('x', 'y'), eps='_', tmin=0, morph=False):
+    if morph:
+        pda._LIVE.clear()
     for idx, spec in pda.pdas(n, k, g, t, tmin=tmin):
         if idx % stride == offset % stride and (idx // stride) % nshard == shard:
-            check(acc, spec, L, tuple(limits), tuple(stack), eps)
+            check(acc, spec, L, tuple(limits), tuple(stack), eps, morph=morph)
+    acc.data.clear()
+
+
+def chain_family(n):
+    """Thin deep family: epsilon chain s0 -> s1 -> ... -> s(n-1) of no-op moves, any subset of extra epsilon self-loops
+    (no-op, or push x / pop x), optionally one letter move in front; F = {last}.  A closure has exactly n (+ few)
+    configurations but many applicable epsilon steps."""
+    k, g = 1, 1
+    E, X = k, g           # indices of epsilon in the input / stack position
+    chain = tuple((i, E, X, i + 1, X) for i in range(n - 1))
+    loops = [(i, E, X, i, X) for i in range(n)]
+    idx = 0
+    import itertools
+    for m in range(0, n + 1):
+        for ls in itertools.combinations(loops, m):
+            for front in (None, (0, 0, X, 0, X), (0, 0, X, 0, 0)):
+                tr = chain + ls + ((front,) if front else ())
+                yield idx, ('pda', n, k, g, tuple(sorted(set(tr))), 0, 1 << (n - 1))
+                idx += 1
+
+
+def t_chain(acc, n, L):
+    for idx, spec in chain_family(n):
+        check(acc, spec, L, tuple(range(max(1, n - 1), n + 3)), ('x', 'y'), '_')
+
 
 
 def plan(tier, seed):
     tasks = []
     P = 'mc.props.c09:t_space'
 
-    def add(n, k, g, t, L, ns, stride=1, limits=LIMITS, stack=('x', 'y'), eps='_', tmin=0):
-        tasks.extend(('plain', P, {'n': n, 'k': k, 'g': g, 't': t, 'L': L, 'shard': s, 'nshard': ns, 'stride': stride, 'offset': seed, 'limits': list(limits), 'stack': list(stack), 'eps': eps, 'tmin': tmin}) for s in range(ns))
+    def add(n, k, g, t, L, ns, stride=1, limits=LIMITS, stack=('x', 'y'), eps='_', tmin=0, morph=False):
+        tasks.extend(('plain', P, {'n': n, 'k': k, 'g': g, 't': t, 'L': L, 'shard': s, 'nshard': ns, 'stride': stride, 'offset': seed, 'limits': list(limits), 'stack': list(stack), 'eps': eps, 'tmin': tmin, 'morph': morph}) for s in range(ns))
 
     add(1, 1, 1, 4, 4, 1)
+    add(1, 1, 1, 4, 3, 1, morph=True)
+    add(2, 1, 1, 2, 3, 4, morph=True)
+    for n_ in (2, 3, 4, 5):
+        tasks.append(('plain', 'mc.props.c09:t_chain', {'n': n_, 'L': 1}))
     add(1, 1, 1, 3, 3, 1, eps='')
     add(1, 1, 1, 3, 3, 1, eps='ε', stack=('$', '∅'))
     add(2, 1, 1, 2, 3, 2, eps='')
@@ -98,4 +142,4 @@ def plan(tier, seed):
         bounds = 'PDA(2,1,1,<=3) x words <= 4; PDA(2,2,1,<=2), PDA(2,1,2,<=2) x words <= 3; strides 1/8 of PDA(2,2,1,3), PDA(2,1,1,4), 1/16 of PDA(3,1,1,3); limits 1,2,3,5,8; stride 1/16 with limits 13, 1000'
     return {'tasks': tasks, 'bounds': {'spaces': bounds}, 'exhaustive': True,
             'rule': 'every labelled PDA in the bounds x every word x every listed value of pda_epsilon_closure_max_iterations; soundness vs saturation oracle for every limit; completeness demanded iff explicit configuration search shows every closure on the way has at most `limit` configurations; non-trivial = PDA with a word of the language inside the premise',
-            'assumptions': ['closure premise evaluated on the exact configuration sets (oracle), capped at max(limit)+1']}
+            'assumptions': ['closure premise evaluated on the exact configuration sets (oracle), capped at max(limit)+1', 'small spaces are presented a second time through one live PDA object rewritten in place (detects per-object caches)', 'epsilon-chain family with self-loops (n = 2..5) at limits n-1..n+2: closures with few configurations but many applicable epsilon steps']}
